@@ -74,6 +74,17 @@ def classify(f, dst, src_=None):
                     keep_self = estr(e.a[1].a[2]) == "%s[%s]" % (dst, estr(e.a[0].a[1])) or field_of(e.a[1].a[2], dst) == F
                     kind = "max" if ((c.op == ">" and field_of(c.a[1], dst) == F) or (c.op == "<" and field_of(c.a[0], dst) == F)) else "min"
                     out[F] = (kind if keep_self else "?", estr(e.a[1]))
+        if st.k == "if" and st.cond.k == "bin" and st.cond.op in (">", "<") and st.els is None:
+            # if (x > b[F]) b[F] = x;   is the statement form of  b[F] = (x > b[F]) ? x : b[F]   (same for <, and mirrored)
+            c = st.cond
+            Fr, Fl = field_of(c.a[1], dst), field_of(c.a[0], dst)
+            body = [s2 for s2 in swalk(st.then) if s2.k != "block"]
+            if len(body) == 1 and body[0].k == "expr" and body[0].e.k == "asg" and body[0].e.op == "=" and (Fr is None) != (Fl is None):
+                F, other = (Fr, c.a[0]) if Fr is not None else (Fl, c.a[1])
+                if field_of(body[0].e.a[0], dst) == F and estr(body[0].e.a[1]) == estr(other):
+                    bigger = (c.op == ">") == (Fr is not None)
+                    out[F] = ("max" if bigger else "min", "(%s ? %s : %s[%s])" % (estr(c), estr(other), dst, F))
+                    continue
         if st.k == "if" and st.cond.k == "bin" and st.cond.op == ">":
             F = field_of(st.cond.a[1], dst)
             if F is not None:
@@ -134,9 +145,13 @@ def r1(R, tus):
     bp = cfront.find_func(tus, "blobproperties", CP)
     res = bp.params[-1].name
     seeds = {}
+    bpdefs = cfront.scalar_defs(bp)  # row = &res[i * NPROPERTY]; row[F] = ..  reads as res[i * NPROPERTY + F] = ..
     for st in swalk(bp.body):
-        if st.k == "expr" and st.e.k == "asg" and st.e.op == "=" and st.e.a[0].k == "idx" and estr(st.e.a[0].a[0]) == res:
-            names = [x.name for x in ewalk(st.e.a[0].a[1]) if x.k == "int" and x.name and x.name != "NPROPERTY"]
+        if st.k == "expr" and st.e.k == "asg" and st.e.op == "=" and st.e.a[0].k == "idx":
+            lhs = cfront.esubst(st.e.a[0], bpdefs)
+            if lhs.k != "idx" or estr(lhs.a[0]) != res:
+                continue
+            names = [x.name for x in ewalk(lhs.a[1]) if x.k == "int" and x.name and x.name != "NPROPERTY"]
             if names:
                 seeds[names[0]] = estr(st.e.a[1])
     mins = sorted(F for F, v in a.items() if v[0] == "min")
@@ -156,10 +171,11 @@ def r1(R, tus):
     reads, writes = set(), set()
     for st, x in cfront.all_exprs(cm.body):
         pass
+    cmdefs = {k: v for k, v in cfront.scalar_defs(cm).items() if any(x.k == "var" and x.name == b for x in ewalk(v))}
     for st in swalk(cm.body):
         for e in cfront.stmt_exprs(st):
             W, Rr = [], []
-            cfront.writes_reads(e, W, Rr)
+            cfront.writes_reads(cfront.esubst(e, cmdefs), W, Rr)
             for x in W:
                 if x.k == "idx" and estr(x.a[0]) == b:
                     writes.update(y.name for y in ewalk(x.a[1]) if y.k == "int" and y.name)
@@ -243,7 +259,7 @@ def r3(R):
     R.rule("C12.R3", "mergelast: on every path the two label images are swapped exactly once, lastnp := npk, lastres := res[:npk] or None; "
                      "bloboverlaps only when both counts are positive; closed peaks get blob_moments then outputpeaks; finalise flushes lastres")
     m = pyfacts.module(R, LI)
-    fn = m.func("labelimage.mergelast")
+    fn = m.ifunc("labelimage.mergelast", keep=("outputpeaks",))  # extracted helpers (swap, close-peaks) read as if written here
     cfg = pyfacts.PyCFG(fn)
     swaps = [s for s in ast.walk(fn) if isinstance(s, ast.Assign) and isinstance(s.targets[0], ast.Tuple) and src(s.targets[0]) == "(self.lastbl, self.blim)"]
     R.check(len(swaps) == 2 and all(src(s.value) == "(self.blim, self.lastbl)" for s in swaps), "C12.R3", LI, fn.lineno, "labelimage.mergelast", "image swap statements: %d" % len(swaps),
@@ -283,7 +299,7 @@ def r3(R):
     R.check(len(bm) == 1 and len(opk) == 1 and bm[0].lineno < opk[0].lineno and src(bm[0].args[0]) == src(opk[0].args[0]) == "self.lastres[:self.lastnp]"
             and bm[0].lineno > ov[0].lineno, "C12.R3", LI, fn.lineno, "labelimage.mergelast", "closed peaks: blob_moments then outputpeaks on lastres[:lastnp], after the merge",
             "peaks of the previous frame are written before they are merged/finished")
-    fin = m.func("labelimage.finalise")
+    fin = m.ifunc("labelimage.finalise", keep=("outputpeaks",))
     u = ast.unparse(fin)
     R.check("self.onlast = 1" in u and "if self.lastres is not None" in u and "cImageD11.blob_moments(self.lastres)" in u and "self.outputpeaks(self.lastres)" in u, "C12.R3", LI, fin.lineno,
             "labelimage.finalise", "finalise flushes the last frame's peaks", "the peaks of the last frame are never written")
